@@ -317,9 +317,61 @@ class SFuncArray:
         return self
 
 
+class DivFacts:
+    """Divisibility facts that follow from how values were computed with np.lcm (per path): lcm(x, y) is a
+    common multiple of x and y, divisibility is reflexive and transitive.  Kept as a closed set of pairs of term
+    ids, so `divides(x, y)` in a specification is decided by lookup - every fact in the set is a theorem about the
+    values on this path, no assumption is added."""
+
+    def __init__(self):
+        self.pairs = set()
+
+    @staticmethod
+    def key(t):
+        return z3.simplify(lib.to_z3(t)).get_id() if lib.is_sym(t) else ("c", t)
+
+    def add(self, x, y):
+        kx, ky = self.key(x), self.key(y)
+        new = {(kx, ky)}
+        new |= {(u, ky) for (u, v) in self.pairs if v == kx}
+        new |= {(kx, w) for (v, w) in self.pairs if v == ky}
+        new |= {(u, w) for (u, v) in self.pairs if v == kx for (v2, w) in self.pairs if v2 == ky}
+        self.pairs |= new
+
+    def holds(self, x, y):
+        kx, ky = self.key(x), self.key(y)
+        if kx == ky or (kx, ky) in self.pairs:
+            return True
+        if not lib.is_sym(x) and not lib.is_sym(y) and isinstance(x, int) and isinstance(y, int) and x != 0:
+            return y % x == 0
+        return False
+
+
+def divides(x, y):
+    """x divides y (native meaning; symbolically decided from the path's lcm facts)."""
+    return y % x == 0
+
+
 def _install():
     import numpy as np
     import bisect
+
+    @lib.handler(np.lcm)
+    def _lcm(it, x, y):
+        if not lib.is_sym(x) and not lib.is_sym(y):
+            return int(np.lcm(x, y))
+        a, b = lib.as_arith(x), lib.as_arith(y)
+        L = it.ctx.fresh("lcm", "int")
+        it.ctx.assume(z3.And(L >= a, L >= b, L >= 1))
+        facts = it.ctx.__dict__.setdefault("div_facts", DivFacts())
+        facts.add(x, L)
+        facts.add(y, L)
+        return L
+
+    @lib.handler(divides)
+    def _divides(it, x, y):
+        facts = it.ctx.__dict__.setdefault("div_facts", DivFacts())
+        return facts.holds(x, y)
 
     def _bisect(left):
         def h(it, a, v, lo=0, hi=None):
